@@ -180,6 +180,8 @@ def _callee_of(facts, body, c, stack, policy="full"):
         return None
     if policy == "shallow" and _shallow_keep(facts, cb):
         return None
+    if isinstance(policy, tuple) and policy[0] == "keep" and cb.def_ in policy[1]:
+        return None          # role functions named by the rule stay calls, every other helper is inlined
     return cb
 
 
@@ -274,6 +276,8 @@ def _expand_async(facts, w, stack, budget, policy="full"):
         if hb is None or hb.crate is not body.crate or not hb.j.get("is_async") or hb.def_ in stack:
             continue
         if policy == "shallow" and _shallow_keep(facts, hb):
+            continue
+        if isinstance(policy, tuple) and policy[0] == "keep" and hb.def_ in policy[1]:
             continue
         kids = [k for k in facts.children.get(hb.def_, []) if k.kind == "coroutine"]
         if len(kids) != 1:
@@ -533,7 +537,7 @@ def _inline_body(facts, body, policy="full"):
 
 
 def inlined(facts, policy="full"):
-    attr = "_inl_" + policy
+    attr = "_inl_" + (policy if isinstance(policy, str) else "keep_%x" % (hash(policy) & 0xffffffff))
     inf = getattr(facts, attr, None)
     if inf is None:
         inf = InlinedFacts(facts, policy)
@@ -546,6 +550,8 @@ def view_of(facts, policy):
     any of the three facts objects"""
     from .core import Tracer
     orig = getattr(facts, "orig", facts)
+    if isinstance(policy, (set, frozenset, list)):
+        policy = ("keep", frozenset(policy))
     if policy == "orig":
         f = orig
     else:
